@@ -43,10 +43,10 @@ PROPS["C08"] = dict(
         SC_NOTE,
     ],
     runs=[
-        run("value", "c08_rc", "attr_value", "rc", dict(procs=4, cases=12000), dict(procs=5, cases=200000)),
-        run("series", "c08_rc", "instrument_series", "rc", dict(procs=4, cases=8000), dict(procs=4, cases=120000)),
-        run("limits", "c08_rc", "storage_limits", "rc", dict(procs=4, cases=8000), dict(procs=4, cases=150000)),
-        run("default-limit", "c08_rc", "provider_default_limit", "rc", dict(procs=3, cases=200, max_size=30),
+        run("value", "c08_rc", "attr_value", "rc", dict(procs=4, cases=18000), dict(procs=5, cases=200000)),
+        run("series", "c08_rc", "instrument_series", "rc", dict(procs=4, cases=12000), dict(procs=4, cases=120000)),
+        run("limits", "c08_rc", "storage_limits", "rc", dict(procs=4, cases=12000), dict(procs=4, cases=150000)),
+        run("default-limit", "c08_rc", "provider_default_limit", "rc", dict(procs=3, cases=300, max_size=30),
             dict(procs=3, cases=2500, max_size=30)),
         # fixed regression cases of F9/F10/F11: only ever replayed (replays/C08/F*-fixed-case.json)
         run("f9-witness", "c08_rc", "f9_witness", "rc", None, None),
